@@ -1,6 +1,7 @@
 package main
 
 import (
+	"os/exec"
 	"go/constant"
 	"math/big"
 	"strconv"
@@ -30,6 +31,8 @@ type Engine struct {
 	loadErrs    []string
 	keyTags     map[string]int
 	typeTags    map[string]int
+	overlay     map[string][]byte // absolute path -> patched content (GOVC_OVERLAY_PATCH)
+	overlayDir  string
 }
 
 const modPath = "github.com/bandprotocol/chain/v3"
@@ -44,7 +47,11 @@ func (e *Engine) Load(rels []string) error {
 	for _, r := range rels {
 		pats = append(pats, "./"+r)
 	}
+	if err := e.loadOverlay(); err != nil {
+		return err
+	}
 	cfg := &packages.Config{
+		Overlay:    e.overlay,
 		Mode:       packages.NeedName | packages.NeedFiles | packages.NeedSyntax | packages.NeedTypes | packages.NeedTypesInfo | packages.NeedImports | packages.NeedCompiledGoFiles,
 		Dir:        e.repo,
 		BuildFlags: []string{"-tags=verif"},
@@ -740,4 +747,51 @@ func (fc *FCtx) script(o *Obligation) string {
 		b.WriteString("(get-value (" + strings.Join(ts, " ") + "))\n")
 	}
 	return b.String()
+}
+
+// loadOverlay: when GOVC_OVERLAY_PATCH names a unified diff, the files it touches are copied from the repo,
+// patched in a scratch directory and loaded through packages.Config.Overlay (and `go test -overlay` for
+// replays), so a change can be analysed without touching /repo. Used by the thorough tier's must-fail corpus.
+func (e *Engine) loadOverlay() error {
+	patch := os.Getenv("GOVC_OVERLAY_PATCH")
+	if patch == "" || e.overlay != nil {
+		return nil
+	}
+	data, err := os.ReadFile(patch)
+	if err != nil {
+		return err
+	}
+	dir, err := os.MkdirTemp(filepath.Join(e.verif, "work"), "overlay-")
+	if err != nil {
+		return err
+	}
+	e.overlayDir = dir
+	var files []string
+	for _, l := range strings.Split(string(data), "\n") {
+		if strings.HasPrefix(l, "+++ b/") {
+			files = append(files, strings.TrimSpace(strings.TrimPrefix(l, "+++ b/")))
+		}
+	}
+	for _, f := range files {
+		src, err := os.ReadFile(filepath.Join(e.repo, f))
+		if err != nil {
+			return err
+		}
+		dst := filepath.Join(dir, f)
+		os.MkdirAll(filepath.Dir(dst), 0o755)
+		os.WriteFile(dst, src, 0o644)
+	}
+	cmd := exec.Command("patch", "-p1", "-s", "--fuzz=3", "-d", dir, "-i", patch)
+	if out, err := cmd.CombinedOutput(); err != nil {
+		return fmt.Errorf("overlay patch does not apply: %s", firstLines(string(out), 3))
+	}
+	e.overlay = map[string][]byte{}
+	for _, f := range files {
+		b, err := os.ReadFile(filepath.Join(dir, f))
+		if err != nil {
+			return err
+		}
+		e.overlay[filepath.Join(e.repo, f)] = b
+	}
+	return nil
 }
